@@ -75,6 +75,10 @@ def portfolio(text, expect_sat=False):
 		            ('z3-5.1', lambda: run_z3(text, rlimit=RLIMIT // 8, wall=60)),
 		            ('z3-4.8.12', lambda: run_z3(text, rlimit=RLIMIT // 8, wall=60, binary=Z3_OLD)),
 		            ('cvc5-1.0.3/long', lambda: run_cvc5(text, wall=WALL // 2))]
+	if '(_ FloatingPoint' in text or 'fp.' in text or 'to_fp' in text:
+		# bit-precise floating-point queries: bit-blasting time is the cost, not quantifier luck - one long z3 run, then cvc5
+		attempts = [('z3-5.1', lambda: run_z3(text, rlimit=20 * RLIMIT, wall=WALL * 2)),
+		            ('cvc5-1.0.3', lambda: run_cvc5(text, wall=WALL))]
 	last = 'unknown'
 	for name, f in attempts:
 		v, secs = f()
